@@ -541,4 +541,17 @@ class FinancialAssetMarket(Market):
         self.IssuerShortCode = issuer_short_code
         self.SearchListSource = self.CurrencyZone
 
+    def _CheckIssuer(self):
+        """
+        A financial asset has exactly one issuer in its currency zone (like a Market needs a supplier).
+        :return: None
+        """
+        issuers = [s for s in self.SearchListSource.GetSectors()
+                   if s.Code == self.IssuerShortCode and not isinstance(s, Market)]
+        if len(issuers) == 0:
+            raise LogicError('No issuer ({0}) for financial asset market {1}'.format(self.IssuerShortCode, self.Code))
+        if len(issuers) > 1:
+            raise LogicError('More than one issuer ({0}) for financial asset market {1}'.format(
+                self.IssuerShortCode, self.Code))
+
 
